@@ -184,6 +184,66 @@ func dictJobOp(c *core.Ctx, jobs []dictJobKey) {
 	}
 }
 
+// invJobOp: ONE invertedIndexMerger (it carries two bitmaps, targetSeriesIDs / seriesIDs, from key to
+// key) merges the posting lists of several tag value ids in turn: big-then-small, empty inputs, ids
+// over several containers. Each written posting list must be the union of THAT key's inputs.
+func invJobOp(c *core.Ctx, r *rand.Rand) {
+	defer func() {
+		if rec := recover(); rec != nil {
+			c.Fail("panic", fmt.Sprintf("inverted merger job panicked: %v", rec))
+		}
+	}()
+	w := newCapture()
+	mg, err := v1.NewInvertedIndexMerger(w)
+	if err != nil {
+		c.Fail("harness-env", "NewInvertedIndexMerger: "+err.Error())
+		return
+	}
+	mg.Init(nil)
+	nk := 3 + r.Intn(4)
+	for k := 1; k <= nk; k++ {
+		want := roaring.New()
+		var bufs [][]byte
+		var sizes []int
+		for ni := 1 + r.Intn(3); ni > 0; ni-- {
+			bm := roaring.New()
+			n := []int{0, 1, 3, 40, 3000}[r.Intn(5)]
+			if k == 1 {
+				n = 3000 // the first key leaves big bitmaps behind
+			}
+			for i := 0; i < n; i++ {
+				bm.Add(uint32(r.Intn(5))<<16 | uint32(r.Intn(70000)&0xffff))
+			}
+			b, err := bm.MarshalBinary()
+			if err != nil {
+				c.Fail("harness-env", "bitmap marshal: "+err.Error())
+				return
+			}
+			bufs = append(bufs, b)
+			sizes = append(sizes, int(bm.GetCardinality()))
+			want.Or(bm)
+		}
+		if err := mg.Merge(uint32(k), bufs); err != nil {
+			c.Fail("inverted-merger-job-values", fmt.Sprintf("key %d of a %d-key job (input sizes %v): Merge: %v", k, nk, sizes, err))
+			return
+		}
+		got := roaring.New()
+		if err := got.UnmarshalBinary(w.out[uint32(k)]); err != nil {
+			c.Fail("inverted-merger-job-values", fmt.Sprintf("key %d of a %d-key job: written posting list unreadable: %v", k, nk, err))
+			return
+		}
+		if !got.Equals(want) {
+			extra, missing := got.Clone(), want.Clone()
+			extra.AndNot(want)
+			missing.AndNot(got)
+			c.Fail("inverted-merger-job-values", fmt.Sprintf("one invertedIndexMerger, key %d of a %d-key job (input sizes %v): written %d series, union of its inputs has %d; %d not in its inputs, %d missing",
+				k, nk, sizes, got.GetCardinality(), want.GetCardinality(), extra.GetCardinality(), missing.GetCardinality()))
+			return
+		}
+	}
+	c.Branch("invjob/ok")
+}
+
 // fullBlockDictCase (case 10, every run; implementation + brute-force oracle only):
 //  1. merger jobs on raw buckets: a fixed one (full-blocks-only key between small keys, the "no pending"
 //     branch followed by other keys) and random ones over all size classes;
@@ -217,6 +277,9 @@ func fullBlockDictCase(c *core.Ctx, r *rand.Rand) {
 			jobs = append(jobs, dictJobKeyOf(k, s, r))
 		}
 		dictJobOp(c, jobs)
+	}
+	for n := 0; n < 4*njobs; n++ {
+		invJobOp(c, r)
 	}
 
 	d, err := newDBT(c)
